@@ -78,6 +78,14 @@ func matrixRows(shas func(src string) string) []row {
 	add("sethook-ex", nil, []string{"SETHOOK", "mh:sethook-ex", sinkURL("x") + "," + sinkURL("y"), "EX", "5000", "WITHIN", k("sethook-ex"), "WHERE", "f", "1", "2", "FENCE", "BOUNDS", "0", "0", "1", "1"})
 	add("sethook-replace", [][]string{{"SETHOOK", "mh:sethook-replace", sinkURL("x"), "NEARBY", k("sethook-replace"), "FENCE", "POINT", "33", "-112", "500"}},
 		[]string{"SETHOOK", "mh:sethook-replace", sinkURL("z"), "INTERSECTS", k("sethook-replace"), "FENCE", "DETECT", "cross", "BOUNDS", "5", "5", "6", "6"})
+	// two writes to one object without a reply in between, the second far larger than the first
+	// (whatever the append path does with large commands, the log keeps the order of application)
+	for _, kind := range []string{"EVAL", "EVALNA"} {
+		row := "small-then-large-" + strings.ToLower(kind)
+		add(row, nil, []string{kind, "tile38.call('set', KEYS[1], 'a', 'string', 'small'); tile38.call('set', KEYS[1], 'b', 'string', 'x'); return tile38.call('set', KEYS[1], 'a', 'string', string.rep('L', 40000))", "1", k(row)})
+		row = "large-then-small-" + strings.ToLower(kind)
+		add(row, nil, []string{kind, "tile38.call('set', KEYS[1], 'a', 'string', string.rep('L', 40000)); return tile38.call('set', KEYS[1], 'a', 'string', 'small')", "1", k(row)})
+	}
 	// the same hook / channel set again with only its lifetime added, removed or changed
 	hk := func(name, key string, ex ...string) []string {
 		return append(append([]string{"SETHOOK", name, sinkURL("x")}, ex...), "NEARBY", key, "FENCE", "POINT", "33", "-112", "500")
